@@ -3,7 +3,9 @@
 //@mode exact
 use vstd::prelude::*;
 use vstd::std_specs::cmp::*;
+use vstd::std_specs::convert::*;
 use core::cmp::Ordering;
+use core::ops::{Bound, RangeBounds, RangeFrom, RangeToInclusive};
 verus! {
 pub mod spec {
 use super::*;
@@ -21,10 +23,8 @@ pub enum IntervalError { InvalidBounds, EmptyInterval }
 //@item src/interval.rs enum Interval
 //@impl src/interval.rs impl<T: PartialOrd> Interval<T>
 //@fn new ret r
-//@| requires T::obeys_partial_cmp_spec(),
-//@| ensures le(low, high) ==> r == Ok::<Self, IntervalError>(Interval::TwoSided(low, high)),
-//@|         !le(low, high) ==> r is Err && r->Err_0 is InvalidBounds,
-//@|         r is Ok ==> wf(r->Ok_0),
+//@| ensures T::obeys_partial_cmp_spec() ==> r == new_spec(low, high),
+//@|         T::obeys_partial_cmp_spec() && r is Ok ==> wf(r->Ok_0),
 //@fn new_upper ret r
 //@| ensures r == Interval::UpperOneSided(low),
 //@fn new_lower ret r
@@ -53,6 +53,83 @@ pub enum IntervalError { InvalidBounds, EmptyInterval }
 //@| ensures match *self { Interval::TwoSided(l, _) => r == Some(&l), Interval::UpperOneSided(l) => r == Some(&l), Interval::LowerOneSided(_) => r is None },
 //@fn right ret r
 //@| ensures match *self { Interval::TwoSided(_, h) => r == Some(&h), Interval::LowerOneSided(h) => r == Some(&h), Interval::UpperOneSided(_) => r is None },
+//@endimpl
+// ---- C14: conversions and accessors (generic T).  vstd attaches the contract of a From / TryFrom / RangeBounds implementation
+// through the *SpecImpl traits below; each `*_spec` function is written from the property (which value goes where), and Verus
+// checks the extracted body against it.
+//@impl src/interval.rs impl<T: PartialOrd> TryFrom<(T, T)> for Interval<T>
+//@fn try_from ret r
+//@endimpl
+impl<T: PartialOrd> TryFromSpecImpl<(T, T)> for Interval<T> {
+    open spec fn obeys_try_from_spec() -> bool { T::obeys_partial_cmp_spec() }
+    open spec fn try_from_spec(value: (T, T)) -> Result<Self, Self::Error> { new_spec(value.0, value.1) }
+}
+//@impl src/interval.rs impl<T: PartialOrd> TryFrom<(Option<T>, Option<T>)> for Interval<T>
+//@fn try_from ret r
+//@endimpl
+impl<T: PartialOrd> TryFromSpecImpl<(Option<T>, Option<T>)> for Interval<T> {
+    open spec fn obeys_try_from_spec() -> bool { T::obeys_partial_cmp_spec() }
+    open spec fn try_from_spec(value: (Option<T>, Option<T>)) -> Result<Self, Self::Error> {
+        match value {
+            (Some(l), Some(h)) => new_spec(l, h),
+            (Some(l), None) => Ok(Interval::UpperOneSided(l)),
+            (None, Some(h)) => Ok(Interval::LowerOneSided(h)),
+            (None, None) => Err(IntervalError::EmptyInterval),
+        }
+    }
+}
+//@impl src/interval.rs impl<T: PartialOrd + Clone> From<Interval<T>> for (Option<T>, Option<T>)
+//@fn from ret r
+//@endimpl
+impl<T: PartialOrd + Clone> FromSpecImpl<Interval<T>> for (Option<T>, Option<T>) {
+    open spec fn obeys_from_spec() -> bool { true }
+    open spec fn from_spec(interval: Interval<T>) -> Self { (inf_opt(interval), sup_opt(interval)) }
+}
+//@impl src/interval.rs impl<T: PartialOrd> From<RangeFrom<T>> for Interval<T>
+//@fn from ret r
+//@endimpl
+impl<T: PartialOrd> FromSpecImpl<RangeFrom<T>> for Interval<T> {
+    open spec fn obeys_from_spec() -> bool { true }
+    open spec fn from_spec(range: RangeFrom<T>) -> Self { Interval::UpperOneSided(range.start) }
+}
+//@impl src/interval.rs impl<T: PartialOrd> From<RangeToInclusive<T>> for Interval<T>
+//@fn from ret r
+//@endimpl
+impl<T: PartialOrd> FromSpecImpl<RangeToInclusive<T>> for Interval<T> {
+    open spec fn obeys_from_spec() -> bool { true }
+    open spec fn from_spec(range: RangeToInclusive<T>) -> Self { Interval::LowerOneSided(range.end) }
+}
+// the RangeBounds view: both ends inclusive where they exist (C07: same membership as `contains`)
+//@impl src/interval.rs impl<T: PartialOrd> RangeBounds<T> for Interval<T>
+//@fn start_bound ret r
+//@| ensures match *self { Interval::TwoSided(l, _) => r == Bound::Included(&l), Interval::UpperOneSided(l) => r == Bound::Included(&l), Interval::LowerOneSided(_) => r is Unbounded },
+//@fn end_bound ret r
+//@| ensures match *self { Interval::TwoSided(_, h) => r == Bound::Included(&h), Interval::LowerOneSided(h) => r == Bound::Included(&h), Interval::UpperOneSided(_) => r is Unbounded },
+//@endimpl
+//@impl src/interval.rs impl<T: PartialOrd + PartialEq> Interval<T>
+//@fn is_degenerate ret r
+//@| requires T::obeys_eq_spec(),
+//@| ensures r == match *self { Interval::TwoSided(x, y) => x.eq_spec(&y), _ => false },
+//@endimpl
+//@impl src/interval.rs impl<T: PartialOrd + Clone> Interval<T>
+//@fn low ret r
+//@| ensures (r is Some) == (inf_opt(*self) is Some), r is Some ==> cloned(inf_opt(*self)->Some_0, r->Some_0),
+//@fn high ret r
+//@| ensures (r is Some) == (sup_opt(*self) is Some), r is Some ==> cloned(sup_opt(*self)->Some_0, r->Some_0),
+//@endimpl
+//@impl src/interval.rs impl<T: PartialOrd> Interval<T>
+//@fn low_as_ref ret r
+//@| ensures match *self { Interval::TwoSided(l, _) => r == Some(&l), Interval::UpperOneSided(l) => r == Some(&l), Interval::LowerOneSided(_) => r is None },
+//@fn high_as_ref ret r
+//@| ensures match *self { Interval::TwoSided(_, h) => r == Some(&h), Interval::LowerOneSided(h) => r == Some(&h), Interval::UpperOneSided(_) => r is None },
+//@endimpl
+//@impl src/interval.rs impl<T: PartialOrd + Clone> Clone for Interval<T>
+//@fn clone ret r
+//@| ensures match (*self, r) {
+//@|     (Interval::TwoSided(l, h), Interval::TwoSided(l2, h2)) => cloned(l, l2) && cloned(h, h2),
+//@|     (Interval::UpperOneSided(l), Interval::UpperOneSided(l2)) => cloned(l, l2),
+//@|     (Interval::LowerOneSided(h), Interval::LowerOneSided(h2)) => cloned(h, h2),
+//@|     _ => false },
 //@endimpl
 // vacuity guard: must FAIL (the runner checks that it does)
 proof fn canary_must_fail<T: PartialOrd>() requires total_order::<T>(), unbounded::<T>() ensures false {}
